@@ -265,6 +265,6 @@ def sample(
 
     s = np.array(s).tolist()  # convert all generated samples to list
 
-    if np.any(t == 0):
+    if np.all(t == 0):
         s = np.pad(s, ((0, 0), (0, n_modes))).tolist()
     return s
